@@ -286,6 +286,9 @@ func alphabet() (files, patches, named []Item) {
 			patches = append(patches, Item{IP: ip, Content: c})
 		}
 	}
+	// patches whose own text holds a marker (of another point of the file, and of their own point):
+	// inserted text is not scanned again
+	patches = append(patches, Item{IP: "x", Content: "S" + y + "S"}, Item{IP: "y", Content: "T" + x + "T"}, Item{IP: "x", Content: "U" + x + "U"})
 	for _, n := range []string{"A.go", "A_1.go", "B.txt"} {
 		for _, ip := range []string{"x", "y"} {
 			named = append(named, Item{Name: n, IP: ip, Content: "R"})
